@@ -10,7 +10,7 @@ CONSTANTS
   Policy <- PolGreedy
   NSteps = 3
   Dt = 1
-  OutEvery = 2
+  OutDt = 2
   Events <- NoEvents
   WithEstimation = FALSE
   WithSerendipity = FALSE
@@ -20,6 +20,7 @@ CONSTANTS
   KeepMissedAcrossSteps = FALSE
   PriorityToAllEngines = FALSE
   PruneKeepsEqual = FALSE
+  PartialCommit = FALSE
 INVARIANT OneRecordPerTasking
 INVARIANT NoRecordWithoutTasking
 INVARIANT PointingReflectsTasking
